@@ -140,7 +140,7 @@ func panicClass(v any) string {
 }
 
 func (c01) Run(c *core.Ctx) {
-	sch, err := schemagen.Load("/repo/schema/compose-spec.json")
+	sch, err := schemagen.Load(RepoDir() + "/schema/compose-spec.json")
 	if err != nil {
 		c.Note("cannot read schema: " + err.Error())
 		return
